@@ -28,16 +28,16 @@ Proof.
     destruct (Nat.eqb i j), (Nat.eqb j 1), (Nat.eqb i 0), (Nat.eqb i 1), (Nat.eqb j 0); reflexivity.
 Qed.
 
-Theorem acc_on_is_spec (G : R) (ign : nat) (tp : bool) (ps : list (Part R)) (i : nat) :
+Theorem acc_on_is_spec (G eps : R) (ign : nat) (tp : bool) (ps : list (Part R)) (i : nat) :
   (ign <= 2)%nat ->
   let pi := nth_d (Z0P RNum) ps i in
-  acc_on RNum G ign ps (px pi, py pi, pz pi) i = acc_spec G 0 0 0 0 0%nat 0%nat 0%nat ign (length ps) tp ps i.
+  acc_on RNum (eps * eps) G ign ps (px pi, py pi, pz pi) i = acc_spec G eps 0 0 0 0%nat 0%nat 0%nat ign (length ps) tp ps i.
 Proof.
   intros Hign pi. unfold acc_on, acc_spec, for_range.
   change (boxes 0 0 0) with [(0%Z, 0%Z, 0%Z)]. rewrite VSum_one. rewrite Nat.sub_0_r.
   rewrite (fold_vadd (seq 0 (length ps)) _
              (fun j => if src (length ps) tp ign i j
-                       then newton G 0 (shift 0 0 0 (0%Z, 0%Z, 0%Z)) (nth_d (P0 RNum) ps i) (nth_d (P0 RNum) ps j) else vzero)).
+                       then newton G eps (shift 0 0 0 (0%Z, 0%Z, 0%Z)) (nth_d (P0 RNum) ps i) (nth_d (P0 RNum) ps j) else vzero)).
   - apply vadd_0_l.
   - intros j a Hj. apply in_seq in Hj.
     rewrite (skip_is_not_src (length ps) ign i j tp Hign) by lia.
@@ -47,8 +47,8 @@ Proof.
     destruct pi as [mi xi yi zi]. destruct (nth_d (P0 RNum) ps j) as [mj xj yj zj].
     destruct a as [[ax ay] az]. cbn.
     replace ((xi + 0 * 0 - xj) * (xi + 0 * 0 - xj) + (yi + 0 * 0 - yj) * (yi + 0 * 0 - yj) +
-             (zi + 0 * 0 - zj) * (zi + 0 * 0 - zj) + 0 * 0)
-      with ((xi - xj) * (xi - xj) + (yi - yj) * (yi - yj) + (zi - zj) * (zi - zj)) by ring.
+             (zi + 0 * 0 - zj) * (zi + 0 * 0 - zj) + eps * eps)
+      with ((xi - xj) * (xi - xj) + (yi - yj) * (yi - yj) + (zi - zj) * (zi - zj) + eps * eps) by ring.
     unfold vadd, vscale. unfold Rdiv. f_equal; [f_equal|]; ring.
 Qed.
 
@@ -57,8 +57,8 @@ From RV Require Import C02.Loops C02.Basic.
 
 Definition s0 : RV3 := shift 0 0 0 (0%Z, 0%Z, 0%Z).
 
-Lemma newt_pair_is_pair_step (G : R) (ps : list (Part R)) (i j : nat) (acc : list RV3) :
-  newt_pair RNum G ps i j acc = pair_step RNum (pf_basic RNum G) true (Some s0) (0 * 0) ps i j acc.
+Lemma newt_pair_is_pair_step (G eps : R) (ps : list (Part R)) (i j : nat) (acc : list RV3) :
+  newt_pair RNum (eps * eps) G ps i j acc = pair_step RNum (pf_basic RNum G) true (Some s0) (eps * eps) ps i j acc.
 Proof.
   unfold newt_pair, newt_terms, pair_step, pf_basic, kick, add3, sep, norm_soft, s0, shift.
   change (nth_d (Z0P RNum) ps i) with (nth_d (P0 RNum) ps i). change (nth_d (Z0P RNum) ps j) with (nth_d (P0 RNum) ps j).
@@ -67,8 +67,6 @@ Proof.
   replace (0 * 0 + xi - xj) with (xi - xj) by ring.
   replace (0 * 0 + yi - yj) with (yi - yj) by ring.
   replace (0 * 0 + zi - zj) with (zi - zj) by ring.
-  replace ((xi - xj) * (xi - xj) + (yi - yj) * (yi - yj) + (zi - zj) * (zi - zj) + 0 * 0)
-    with ((xi - xj) * (xi - xj) + (yi - yj) * (yi - yj) + (zi - zj) * (zi - zj)) by ring.
   reflexivity.
 Qed.
 
@@ -76,21 +74,21 @@ Qed.
 Definition upper_pairs (n : nat) : list (nat * nat * bool) :=
   flat_map (fun i => map (fun j => (i, j, true)) (seq (S i) (n - S i))) (seq 0 n).
 
-Lemma grav_allpairs_run (G : R) (ps : list (Part R)) :
-  grav_allpairs RNum G ps =
-  fold_left (step3 (pf_basic RNum G) (Some s0) (0 * 0) ps) (upper_pairs (length ps)) (repeat (t0 RNum) (length ps)).
+Lemma grav_allpairs_run (G eps : R) (ps : list (Part R)) :
+  grav_allpairs RNum (eps * eps) G ps =
+  fold_left (step3 (pf_basic RNum G) (Some s0) (eps * eps) ps) (upper_pairs (length ps)) (repeat (t0 RNum) (length ps)).
 Proof.
   unfold grav_allpairs, upper_pairs, for_range. rewrite fold_left_flat_map. rewrite Nat.sub_0_r.
   apply fold_left_ext. intros s i _. rewrite fold_left_map. apply fold_left_ext. intros s' j _.
   cbn [step3]. apply newt_pair_is_pair_step.
 Qed.
 
-Lemma upper_pairs_sum (G : R) (ps : list (Part R)) (k : nat) : (k < length ps)%nat ->
-  VSum (upper_pairs (length ps)) (contrib3 (pf_basic RNum G) (Some s0) (0 * 0) ps k) =
-  VSum (seq 0 (length ps)) (fun j => if negb (k =? j)%nat then newton G 0 s0 (part ps k) (part ps j) else vzero).
+Lemma upper_pairs_sum (G eps : R) (ps : list (Part R)) (k : nat) : (k < length ps)%nat ->
+  VSum (upper_pairs (length ps)) (contrib3 (pf_basic RNum G) (Some s0) (eps * eps) ps k) =
+  VSum (seq 0 (length ps)) (fun j => if negb (k =? j)%nat then newton G eps s0 (part ps k) (part ps j) else vzero).
 Proof.
   intros Hk. set (n := length ps) in *. unfold upper_pairs. rewrite VSum_flat_map.
-  set (A := Aterm (pf_basic RNum G) (Some s0) (0 * 0) ps). set (B := Bterm (pf_basic RNum G) (Some s0) (0 * 0) ps).
+  set (A := Aterm (pf_basic RNum G) (Some s0) (eps * eps) ps). set (B := Bterm (pf_basic RNum G) (Some s0) (eps * eps) ps).
   rewrite VSum_ext with (h := fun i =>
     vadd (if (k =? i)%nat then VSum (seq 0 n) (fun j => if (S k <=? j)%nat && (j <? n)%nat then A k j else vzero) else vzero)
          (if (i <? k)%nat then B i k else vzero)).
@@ -116,8 +114,8 @@ Qed.
 
 (* the function differentiated by C16_var2_is_mixed_dual_part is the specified force: zero softening, open boundary,
    all particles active, gravity_ignore_terms = 0 *)
-Theorem grav_allpairs_is_spec (G : R) (tp : bool) (ps : list (Part R)) (k : nat) : (k < length ps)%nat ->
-  nth_d vzero (grav_allpairs RNum G ps) k = acc_spec G 0 0 0 0 0%nat 0%nat 0%nat 0%nat (length ps) tp ps k.
+Theorem grav_allpairs_is_spec (G eps : R) (tp : bool) (ps : list (Part R)) (k : nat) : (k < length ps)%nat ->
+  nth_d vzero (grav_allpairs RNum (eps * eps) G ps) k = acc_spec G eps 0 0 0 0%nat 0%nat 0%nat 0%nat (length ps) tp ps k.
 Proof.
   intros Hk. rewrite grav_allpairs_run. change (t0 RNum) with vzero.
   rewrite run_pairs_nth by (rewrite repeat_length; exact Hk).
@@ -128,9 +126,9 @@ Proof.
   rewrite Hjn. cbn [negb andb orb]. rewrite !andb_true_r. reflexivity.
 Qed.
 
-Corollary grav_allpairs_is_grav_basic (G : R) (tp : bool) (ps : list (Part R)) (k : nat) : (k < length ps)%nat ->
-  nth_d vzero (grav_allpairs RNum G ps) k =
-  nth_d vzero (grav_basic RNum G 0 0 0 0 0 0 0 0 (length ps) tp ps) k.
+Corollary grav_allpairs_is_grav_basic (G eps : R) (tp : bool) (ps : list (Part R)) (k : nat) : (k < length ps)%nat ->
+  nth_d vzero (grav_allpairs RNum (eps * eps) G ps) k =
+  nth_d vzero (grav_basic RNum G eps 0 0 0 0 0 0 0 (length ps) tp ps) k.
 Proof.
   intros Hk. rewrite grav_allpairs_is_spec with (tp := tp) by exact Hk. symmetry.
   apply basic_eq_spec; [lia | lia | exact Hk].
